@@ -16,6 +16,7 @@ a directive is copied through.  Directives:
   //@ before <n> `literal`    before the line holding the n-th occurrence
   //@ after <n> `literal`     after the statement holding the n-th occurrence
   //@ afterline <n> `literal` after the line holding the n-th occurrence
+  //@ loop-start <n>          at the start of the n-th loop's body
   //@ loop-end <n>            at the end of the n-th loop's body
   //@ finish                  before the closing brace of the fn body (fns returning ())
   //@ start                   right after the body's opening brace
@@ -303,6 +304,12 @@ class Expander:
                 close = rustlex.match_close(tm, body_open)
                 off = text.rfind("\n", 0, close) + 1
                 inserts.append((off, order, btxt + "\n", "proof"))
+            elif kind == "loop-start":
+                k = int(args.split()[0])
+                loops = rustlex.find_loops(text, tm, body_open)
+                if k < 1 or k > len(loops):
+                    raise LostAnchor("%s: loop %d not found (%d loops)" % (it.id, k, len(loops)))
+                inserts.append((loops[k - 1][1] + 1, order, "\n" + btxt, "proof"))
             elif kind == "loop-end":
                 k = int(args.split()[0])
                 loops = rustlex.find_loops(text, tm, body_open)
